@@ -139,7 +139,20 @@ func WithVars(vars map[string]any) QueryOption {
 	}
 }
 
-func New(data Map, query string, options ...QueryOption) (*Query, error) {
+func New(data Map, query string, options ...QueryOption) (built *Query, err error) {
+	// joins and FROM paths are evaluated while the query is built: a panic
+	// there (for instance in a function called from an ON condition) is
+	// reported as an error, like the ones exec recovers
+	defer func() {
+		if r := recover(); r != nil {
+			built = nil
+			if e, ok := r.(error); ok {
+				err = e
+			} else {
+				err = fmt.Errorf("%v", r)
+			}
+		}
+	}()
 	q := &Query{
 		offsetDefinition:    -1,
 		limitDefinition:     -1,
